@@ -3,12 +3,14 @@
 //! Used by C07 (safety invariants along histories).
 
 use bridge::{catch, CMode, CPat, Cfg};
-use scnr::{PeekResult, Scanner, ScannerModeSwitcher};
+use scnr::{MatchExtIterator, PeekResult, PositionProvider, Scanner, ScannerModeSwitcher};
 
 #[derive(Clone, Copy, Debug, PartialEq, Eq)]
 pub enum HOp {
     Next,
     Peek2,
+    /// `peek_n(usize::MAX)`: "all remaining tokens of this mode"
+    PeekMax,
     AdvPeek0,
     SetOffset(usize),
     SetMode(usize),
@@ -22,6 +24,7 @@ impl HOp {
         match self {
             HOp::Next => "next()".into(),
             HOp::Peek2 => "peek_n(2)".into(),
+            HOp::PeekMax => "peek_n(usize::MAX)".into(),
             HOp::AdvPeek0 => "advance_to(end of the first match of peek_n(1))".into(),
             HOp::SetOffset(o) => format!("set_offset({o})"),
             HOp::SetMode(m) => format!("set_mode({m})"),
@@ -31,7 +34,7 @@ impl HOp {
 }
 
 pub fn alphabet(input: &str, n_modes: usize) -> Vec<HOp> {
-    let mut v = vec![HOp::Next, HOp::Peek2, HOp::AdvPeek0];
+    let mut v = vec![HOp::Next, HOp::Peek2, HOp::PeekMax, HOp::AdvPeek0];
     let mut b = 0;
     v.push(HOp::SetOffset(0));
     for c in input.chars() {
@@ -103,8 +106,12 @@ pub fn safety_history(sc: &Scanner, input: &str, hist: &[HOp], tokens_seen: &mut
                         }
                     }
                 },
-                HOp::Peek2 | HOp::AdvPeek0 => {
-                    let n = if *op == HOp::Peek2 { 2 } else { 1 };
+                HOp::Peek2 | HOp::PeekMax | HOp::AdvPeek0 => {
+                    let n = match op {
+                        HOp::Peek2 => 2,
+                        HOp::PeekMax => usize::MAX,
+                        _ => 1,
+                    };
                     let p = it.peek_n(n);
                     let v = match &p {
                         PeekResult::Matches(v) | PeekResult::MatchesReachedEnd(v) => v.clone(),
@@ -149,7 +156,17 @@ pub fn safety_history(sc: &Scanner, input: &str, hist: &[HOp], tokens_seen: &mut
                     }
                 }
             }
+            // position queries are iterator calls too: whatever they answer (C09 judges that),
+            // they must answer (line and column are 1-based)
+            for o in [0, floor.min(input.len()), input.len()] {
+                let p = it.position(o);
+                if p.line == 0 || p.column == 0 {
+                    return (Some(format!("after op #{i} {}: position({o}) is {p:?}; lines and columns are 1-based", op.show())), n_tok);
+                }
+            }
         }
+        // the drain goes through the WithPositions adapter (same tokens, with positions attached)
+        let mut it = it.with_positions();
         // drain
         let mut calls = 0;
         let limit = budget + 2;
